@@ -140,3 +140,16 @@ reg("C18",
     "Trusted: projection Color->(kind, number, r, g, b), decimal strings->ints, dictionary/delta-run grouping of equal observations and the `is` identity test (drivers/c18.py); palettes read from the tree under test. For the 256 target the statement only requires gamut and grey ramp: changes of the cube or threshold arithmetic that stay in gamut are reported as DRIFT against the transcription, not as violations. The 24 saturation ties and 5 grey-step rounding ties are left open in the transcription. Windows-typed and EIGHT_BIT-typed n<16 sources are outside the quantifier (gamut only). Cube sweep: 16-colour tie-break drift compared on 1 row in 8.",
     "TLA+ spec Color.tla; TLC exhaustive model check of the transcription (MC_Color) + TLC slice evaluation (Trace_Color) of recorded real executions over the whole finite input space",
     "DESIGN.md §4 C18")
+
+reg("C03",
+    "Sgr.tla is an SGR / OSC-8 terminal pen automaton written in TLA+ independently of Rich's encoder and decoder.  MC_Sgr (M1) checks that the encoder design "
+    "(which parameters a style becomes, reset after every segment) composed with that automaton gives back the intended pen for every pen of a 7 452-element domain and "
+    "leaves nothing behind.  Seeded random sequences of 1-6 styled segments (13 tri-state attributes x none/default/standard/indexed/24-bit foreground and background x "
+    "links, bell control segments) are printed on real consoles of every colour system x NO_COLOR x terminal x legacy-windows configuration, the SAME Style objects on up to 4 "
+    "consoles in a row; the written characters are tokenised lexically and TLC interprets them with Sgr.tla and judges: visible characters, per-character attributes / "
+    "foreground / background / link against what the style means (after the documented down-conversion), no leak past the end, no escape with colour disabled, no colour "
+    "parameter under NO_COLOR, no control code on a non-terminal.  Bounded sampling judged by a formal terminal model.",
+    "Trusted: engine/sgrlex.py; expected pens are read from the Style's public getters and Color.downgrade (the down-conversion itself is C18's subject). Console wide enough "
+    "not to wrap.",
+    "TLA+ spec Sgr.tla (independent terminal automaton) + MC_Sgr (encoder design vs automaton, exhaustive over a pen domain) + TLC validation of the tokenised output of real consoles (Trace_Sgr)",
+    "DESIGN.md §4 C03")
